@@ -72,7 +72,8 @@ def modelPatPaths (c : Case) : List String :=
   let listed := dropEmpty (fsExists c.fs c.cwd) (listFiles id B c.order)
   match withGetter c.cwd (abspath c.cwd B) listed with
   | .ok items =>
-    let base := (commonpath (items.map (·.2))).getD c.cwd
+    -- `basepath = abspath(basepath).name` (since 1742c6d)
+    let base := (pathlibNorm ⟨false, [name (abspath c.cwd B)]⟩).comps
     items.map fun it => withBaseStr base it.2
   | .error _ => []
 
@@ -114,13 +115,12 @@ def create (j : Json) : Except String Json := do
   return jobj [("model", resultJson model),
                ("spec", createdJson spec),
                ("modelEqSpec", jbool (model == .ok spec)),
-               ("hyp", jbool (Spec.hypB c.st env c.tree)),
-               ("hypName", "cleanTree ∧ spellOK ∧ nameOK ∧ listedExist ∧ prefixOK ∧ order.isPerm"),
+               ("hyp", jbool (Spec.hypB env c.tree)),
+               ("hypName", "cleanTree ∧ fileSpellOK ∧ nameOK ∧ listedExist ∧ order.isPerm"),
                ("hypParts", jobj [("cleanTree", jbool (Spec.cleanTree c.tree)),
-                                  ("spellOK", jbool (Spec.spellOK env c.tree)),
+                                  ("fileSpellOK", jbool (Spec.fileSpellOK env c.tree)),
                                   ("nameOK", jbool (Spec.nameOK env c.tree)),
                                   ("listedExist", jbool (Spec.listedExist env c.tree)),
-                                  ("prefixOK", jbool (Spec.prefixOK c.st c.tree)),
                                   ("perm", jbool (c.order.isPerm c.tree.files))]),
                ("listed", jarr listed)]
 
